@@ -92,13 +92,20 @@ def fluid_model(E, theta, limits, starts, vols, removed):
     return finish
 
 
-def fam_pipe(E, configs, fault_kinds, pmax=1, unbounded=False, placements=True):
+def fam_pipe(E, configs, fault_kinds, pmax=1, unbounded=False, placements=True, infinite=False):
     n = len(configs[0][1])
     theta, limits = configs[E.pick('config', len(configs))]
     vols = [E.real('v%d' % i, 0, 60) for i in range(n)]
     starts = [E.const(0)] + [E.real('s%d' % i, 0, 30) for i in range(1, n)]
     fault = Fault(E, 'f', fault_kinds, hi=60, pmax=pmax, real=True, placements=placements)
-    pipe = UnboundedPipe() if unbounded else Pipe(throughput=E.const(theta))
+    if infinite:
+        # a regular Pipe whose throughput is infinite: never congested, the default limit is
+        # infinite as well ("infinite-throughput transfers take no time")
+        theta = INF
+        pipe = Pipe(throughput=INF)
+        unbounded = True            # same reference model as UnboundedPipe
+    else:
+        pipe = UnboundedPipe() if unbounded else Pipe(throughput=E.const(theta))
     log = Log()
 
     def transfer(i):
@@ -176,6 +183,15 @@ FAMILIES = [
                          placements=False, _max_wall=1500, _max_paths=900000),
            reach=['none'],
            bounds='3 transfers'),
+    Family('infinite', fam_pipe,
+           quick=dict(configs=[(None, (None, F(2))), (None, (F(1), F(3))), (None, (F(2), None))],
+                      fault_kinds=[Fault.NONE, Fault.CANCEL], infinite=True),
+           thorough=dict(configs=[(None, (None, F(2))), (None, (F(1), F(3))), (None, (F(2), None)),
+                                  (None, (None, None))],
+                         fault_kinds=ALLF, infinite=True, pmax=2),
+           reach=['none', 'zero-volume'],
+           bounds='regular Pipe(throughput=inf): default-limit transfers take no time, limited '
+                  'ones v/l, whatever else is in flight'),
     Family('unbounded', fam_pipe,
            quick=dict(configs=[(F(1), (None, F(2)))], fault_kinds=[Fault.NONE, Fault.CANCEL],
                       unbounded=True),
